@@ -383,7 +383,7 @@ func (vc *VC) applyContract(st *State, c *Contract, key string, sig *types.Signa
 		}
 	}
 	for _, en := range c.Ensures {
-		if usesCall(en.E, "callres") || usesCall(en.E, "callarg") || usesCall(en.E, "called") || usesCall(en.E, "keys") || usesCall(en.E, "nocall") {
+		if usesCall(en.E, "callres") || usesCall(en.E, "callarg") || usesCall(en.E, "called") || usesCall(en.E, "keys") || usesCall(en.E, "nocall") || usesCall(en.E, "deferred") {
 			continue // internal clause (own call sites / own literal tables): not part of the interface
 		}
 		if vc.contract != nil && vc.contract.Use != nil {
@@ -1088,6 +1088,23 @@ func (vc *VC) doDefer(st *State, x *ssa.Defer) {
 			if vc.contract == nil || !vc.contract.TrackLocks {
 				vc.assumptions["mutex operations are no-ops (sequential reasoning only)"] = true
 				return
+			}
+		}
+	}
+	// `deferred(NAME)`: this execution registered a deferred call of NAME
+	{
+		nm := ""
+		if fn := x.Call.StaticCallee(); fn != nil {
+			nm = lastName(funcKey(fn))
+		}
+		if nm != "" {
+			if vc.deferCF == nil {
+				vc.deferCF = map[string]Term{}
+			}
+			if old, ok := vc.deferCF[nm]; ok {
+				vc.deferCF[nm] = or(old, st.cfOr())
+			} else {
+				vc.deferCF[nm] = st.cfOr()
 			}
 		}
 	}
